@@ -1,10 +1,12 @@
 #!/bin/bash
-# runs every thorough command once, sequentially, and prints a one-line summary per check (used with `vp run`)
+# runs thorough commands once, sequentially, and prints a one-line summary per check (used with `vp run`)
+# usage: run_thorough_all.sh [Cxx ...]   (default: every registered check)
 cd "$(dirname "$0")"
 ./setup.sh
-for c in C20 C13 C07 C01 C02 C03 C04 C06 C08 C09 C10 C19 C16 C05 C11 C12 C17 C18 C14; do
+LIST=${@:-C20 C13 C07 C01 C02 C03 C04 C06 C08 C09 C10 C19 C16 C05 C11 C12 C17 C18 C14}
+for c in $LIST; do
   s=$(date +%s)
   timeout 3000 ./check $c --tier thorough > thorough_$c.log 2>&1; rc=$?
   echo "$c exit=$rc wall=$(( $(date +%s) - s ))s $(grep '^\[C' thorough_$c.log | cut -c1-160)"
-  grep -E "^VIOLATION|^HARNESS" thorough_$c.log | head -3
+  grep -E "^VIOLATION|^HARNESS|^KNOWN" thorough_$c.log | head -3 | cut -c1-300
 done
